@@ -552,7 +552,10 @@ func (r *Rig) Exec(idx int, st *Step, prev *Step) *Drift {
 		if res.Status != want {
 			return r.drift(idx, "status", "%s answered %s %s, specification predicts %s", st.Describe(), res.Status, res.Text, st.Status)
 		}
-		r.applyToMirror(s, st, idx, res.Untagged, cmdKind)
+		if st.Act != "Close" && st.Act != "Unselect" {
+			// (what CLOSE still flushes concerns a view the client has just given up)
+			r.applyToMirror(s, st, idx, res.Untagged, cmdKind)
+		}
 		if st.Act == "Store" && st.ArgBool(3) && res.Status == "OK" {
 			// after a .SILENT store the client no longer knows the flags of the addressed messages
 			for _, p := range st.ArgInts(0) {
